@@ -102,9 +102,14 @@ namespace BitSerializer::Convert::Detail
 		{
 			if constexpr (TDivRatio::num == 1)
 			{
-				const auto v = static_cast<TTargetRep>(static_cast<TOpRep>(duration.count()) / static_cast<TOpRep>(TDivRatio::den));
-				if (static_cast<TRep>(v * TDivRatio::den) != duration.count()) {
+				const auto opCount = static_cast<TOpRep>(duration.count());
+				const auto q = opCount / static_cast<TOpRep>(TDivRatio::den);
+				if (q * static_cast<TOpRep>(TDivRatio::den) != opCount) {
 					throw std::out_of_range("Precision of target duration is not enough");
+				}
+				const auto v = static_cast<TTargetRep>(q);
+				if (q != static_cast<TOpRep>(v) || (q > 0 && v < 0) || (q < 0 && v > 0)) {
+					throw std::out_of_range("Target duration is not enough");
 				}
 				return TTarget(v);
 			}
@@ -116,9 +121,14 @@ namespace BitSerializer::Convert::Detail
 					throw std::out_of_range("Target duration is not enough");
 				}
 
-				const auto v = static_cast<TTargetRep>(static_cast<TOpRep>(duration.count()) * static_cast<TOpRep>(TDivRatio::num) / static_cast<TOpRep>(TDivRatio::den));
-				if (v && static_cast<TRep>(v * TDivRatio::den / TDivRatio::num) != duration.count()) {
+				const auto scaled = static_cast<TOpRep>(duration.count()) * static_cast<TOpRep>(TDivRatio::num);
+				const auto q = scaled / static_cast<TOpRep>(TDivRatio::den);
+				if (q && q * static_cast<TOpRep>(TDivRatio::den) != scaled) {
 					throw std::out_of_range("Precision of target duration is not enough");
+				}
+				const auto v = static_cast<TTargetRep>(q);
+				if (q != static_cast<TOpRep>(v) || (q > 0 && v < 0) || (q < 0 && v > 0)) {
+					throw std::out_of_range("Target duration is not enough");
 				}
 				return TTarget(v);
 			}
@@ -470,6 +480,11 @@ namespace BitSerializer::Convert::Detail
 	{
 		const CDateTimeParts<> utc = ParseIsoUtc(in);
 
+		// A year whose days cannot be counted in 64 bits cannot be represented by any time point (and would overflow the calculations below)
+		if (utc.Year > std::numeric_limits<int64_t>::max() / 366 || utc.Year < std::numeric_limits<int64_t>::min() / 366) {
+			throw std::out_of_range("Target duration is not enough");
+		}
+
 		// Based on Howard Hinnant's algorithm
 		static_assert(sizeof(int) >= 4, "This algorithm has not been ported to a 16 bit integers");
 		auto const y = utc.Year - (utc.Month <= 2);
@@ -623,8 +638,11 @@ namespace BitSerializer::Convert::Detail
 						if (isNegative)
 						{
 							constexpr uint64_t maxI64Negative = 9223372036854775808u;
-							if (value <= maxI64Negative) {
+							if (value < maxI64Negative) {
 								SafeAddDuration(duration, transformToDuration(-static_cast<int64_t>(value), sym, isDatePart));
+							}
+							else if (value == maxI64Negative) {
+								SafeAddDuration(duration, transformToDuration(std::numeric_limits<int64_t>::min(), sym, isDatePart));
 							}
 							else {
 								throw std::out_of_range("ISO duration contains too big number");
